@@ -3,6 +3,7 @@
 from __future__ import annotations
 
 import argparse
+import re
 import importlib
 import json
 import os
@@ -145,6 +146,21 @@ def run_cases(mod, ctx, driver_ok):
             c2["tag"] = "interference:" + c.get("tag", "")
             c2["stateful"] = True
             batch.append(c2)
+        amp = getattr(ctx, "amplify_ns", None)
+        if (amp and c.get("op") and real[0].startswith("pyModeS.") and len(real) == 2 and real[1] and isinstance(real[1][0], str)
+                and len(real[1][0]) in (14, 28) and real[1][0] in c["op"]):
+            t = gen.target(real) if gen.ok else None
+            if t is not None and t[0].split(".")[0] in amp:
+                # the tie of this function is open: the same call on frames that differ in one or two hex digits
+                # (model against code; the property's oracle is not available for them)
+                m0 = real[1][0]
+                for _k in range(12):
+                    m1 = adapters.neighbour(ctx.rng, m0)
+                    if ctx.rng.random() < 0.4:
+                        m1 = adapters.neighbour(ctx.rng, m1)
+                    c3 = dict(op=c["op"].replace(m0, m1), real=(real[0], [m1] + list(real[1][1:])), tag="amplified:" + c.get("tag", ""),
+                              stateful=True)
+                    batch.append(c3)
         if len(batch) >= 20000:
             flush()
     flush()
@@ -238,7 +254,18 @@ def check(prop, tier, seed, t0, no_build=False):
                         tie["theorems"], tie["checked"] = names_t, ok_t
                         tie["broken"] += problems_t + (["forbidden construct: " + "; ".join(hits_t[:3])] if hits_t else [])
                     else:
-                        tie["broken"].append("tie theorems (generated definition = hand model) no longer check: " + tail(out, 400))
+                        failed = sorted(set(re.findall(r"^- (PyModeS\.Tie\.\w+)", out, flags=re.M))) or tie_modules
+                        tie["failed_modules"] = failed
+                        tie["broken"].append("tie theorems (generated definition = hand model) no longer check in %s: %s" % (
+                            ", ".join(failed), tail(out, 300)))
+                        # the theorems of the modules that still build keep their standing
+                        good = [m for m in tie_modules if m not in failed and not any(
+                            f.split(".")[-1] in open(os.path.join(core.LEAN, m.replace(".", "/") + ".lean")).read() for f in failed)]
+                        if good:
+                            ok_g, _o = core.lake_build(good)
+                            if ok_g:
+                                n_t, ok_t, problems_t, names_t = core.audit_axioms(good, suffix="_tie")
+                                tie["theorems"], tie["checked"] = names_t, ok_t
             else:
                 tie["broken"].append("translator failed: " + gmsg)
         else:
@@ -246,11 +273,20 @@ def check(prop, tier, seed, t0, no_build=False):
             tie["regenerated"] = True
         ctx.gen_ok = tie["driver"] and tie["regenerated"]
         ctx.tie = tie
+        # python modules whose tie is open: calls into them are amplified (neighbouring frames, model vs code)
+        NS = {"Common": ["py_common"], "Basic": ["py_common"], "Surv": ["surv", "allcall"], "Bds05b": ["bds05", "bds06"],
+              "Callsign": ["bds08"], "Cpr": ["bds05", "bds06"], "Adsb": ["adsb", "uncertainty"], "Uplink": ["uplink"],
+              "Crc": ["py_common"], "Is60": ["bds60"], "Infer": ["bds"], "Source": ["source"], "RawReader": ["tcpclient"],
+              "C11Gen": [], "C12Gen": []}
+        ctx.amplify_ns = set()
+        for fm in tie.get("failed_modules", []):
+            short = fm.split(".")[-1]
+            ctx.amplify_ns |= set(NS.get(short, [short.lower()]))
         if tie["broken"]:
             # not a broken obligation of the property: the hand-written model stays tied by the correspondence check,
             # which is escalated; the evidence says which generated-model obligations are open
-            ctx.escalate = True
-            ctx.notes.append("generated-model tie degraded (generators escalated): " + " | ".join(tie["broken"])[:600])
+            ctx.soft = True
+            ctx.notes.append("generated-model tie degraded (generator budgets tripled): " + " | ".join(tie["broken"])[:600])
         hits = core.grep_forbidden(modules)
         if hits:
             broken.append("forbidden construct: " + "; ".join(hits[:5]))
